@@ -15,6 +15,7 @@
 package ggql
 
 import (
+	"math"
 	"strconv"
 )
 
@@ -39,11 +40,10 @@ func (*float64Scalar) CoerceIn(v interface{}) (interface{}, error) {
 	var err error
 	switch tv := v.(type) {
 	case nil:
-		// remains nil
 	case float64:
-		// ok as is
+		v, err = finiteFloat64(tv)
 	case float32:
-		v = float64(tv)
+		v, err = finiteFloat64(float64(tv))
 	case int32:
 		v = float64(tv)
 	case int64:
@@ -51,7 +51,9 @@ func (*float64Scalar) CoerceIn(v interface{}) (interface{}, error) {
 	case string:
 		var f float64
 		if f, err = strconv.ParseFloat(tv, 64); err == nil {
-			v = f
+			v, err = finiteFloat64(f)
+		} else {
+			v = nil
 		}
 	default:
 		v = nil
@@ -65,11 +67,10 @@ func (t *float64Scalar) CoerceOut(v interface{}) (interface{}, error) {
 	var err error
 	switch tv := v.(type) {
 	case nil:
-		// remains nil
 	case float32:
-		v = float64(tv)
+		v, err = finiteFloat64(float64(tv))
 	case float64:
-		// ok as is
+		v, err = finiteFloat64(tv)
 	case int:
 		v = float64(tv)
 	case int8:
@@ -93,11 +94,22 @@ func (t *float64Scalar) CoerceOut(v interface{}) (interface{}, error) {
 	case string:
 		var f float64
 		if f, err = strconv.ParseFloat(tv, 64); err == nil {
-			v = f
+			v, err = finiteFloat64(f)
+		} else {
+			v = nil
 		}
 	default:
 		v = nil
 		err = newCoerceErr(tv, "Float64")
 	}
 	return v, err
+}
+
+// finiteFloat64 rejects NaN and infinities which have no GraphQL or JSON
+// representation.
+func finiteFloat64(f float64) (interface{}, error) {
+	if math.IsNaN(f) || math.IsInf(f, 0) {
+		return nil, newCoerceErr(f, "Float64")
+	}
+	return f, nil
 }
